@@ -23,6 +23,7 @@ structure Sim where
   racy : Bool := false      -- a loop whose loopDone is closed stood at its select while a message was ready: Go chooses at random
   watchProg : List (Nat × String) := []   -- observation ↦ program of its callback (run for the first notification)
   notes : List Nat := []                  -- one element per notification sent (its observation)
+  dual : Bool := false      -- a replaced loop stood at its select with a message ready while the current loop was free to take as well
   rtRace : Bool := false    -- within one quiescence period one goroutine called TryToReplaceLoop while another loop's
                             -- readingMessages flag changed: which of the two came first is the scheduler's choice
 
@@ -32,7 +33,8 @@ def compileProg (udp : Bool) (limit epLimit : Nat) (prog : String) : List Act :=
     else if st == "p" then acc ++ pingProg udp
     else
       let k := (st.drop 1).toString.toNat?.getD 0
-      if st.startsWith "s" then acc ++ sleepProg k
+      if st.startsWith "w" then acc ++ writeProg udp k
+      else if st.startsWith "s" then acc ++ sleepProg k
       else if st.startsWith "n" then acc ++ doNonProg udp 1 epLimit limit k
       else if st.startsWith "g" then acc ++ doProg udp 1 epLimit limit k
       else if st.startsWith "h" then acc ++ doProg udp (100 + k) epLimit limit k
@@ -65,9 +67,19 @@ def staleRace (s : State) : Bool := Id.run do
     | none => pure ()
   return r
 
+/-- the current loop is at its select, or runs a handler that can take its next step: it is free to take / dispatch -/
+def currentFree (s : State) : Bool :=
+  match s.loops s.current with
+  | some lp =>
+    lp.pc == .atSelect ||
+    (lp.pc == .running && (match lp.prog with
+      | act :: rest => (doAct s s.current lp act rest).isSome
+      | [] => true))
+  | none => false
+
 /-- one scheduling round; returns the new state, whether anything moved, and whether a replaced loop stood at its select
     while a message was ready -/
-def round (s : State) : State × Bool × Bool × List Nat × List Nat := Id.run do
+def round (s : State) : State × Bool × Bool × List Nat × List Nat × Bool := Id.run do
   let mut s := s
   let mut moved := false
   let mut replacers : List Nat := []
@@ -93,6 +105,7 @@ def round (s : State) : State × Bool × Bool × List Nat × List Nat := Id.run 
           s := step s (.handlerStep l); moved := true
     | none => pure ()
   let racy := staleRace s
+  let dual := racy && currentFree s
   -- selects: a loop whose loopDone is closed leaves, the current one receives
   for l in [0:s.nloops] do
     match s.loops l with
@@ -104,18 +117,20 @@ def round (s : State) : State × Bool × Bool × List Nat × List Nat := Id.run 
           togglers := l :: togglers
           s := step s (.loopTake l); moved := true
     | none => pure ()
-  return (s, moved, racy, replacers, togglers)
+  return (s, moved, racy, replacers, togglers, dual)
 
 def settle (sim : Sim) : Sim := Id.run do
   let mut s := sim.s
   let mut ever := sim.everSent
   let mut racy := sim.racy
+  let mut dual := sim.dual
   let mut enq : List (Nat × Nat) := []
   let mut allReps : List Nat := []
   let mut allTogs : List Nat := []
   for _ in [0:100000] do
-    let (s', moved, r, reps, togs) := round s
+    let (s', moved, r, reps, togs, d) := round s
     if r then racy := true
+    if d then dual := true
     allReps := reps ++ allReps
     allTogs := togs ++ allTogs
     for w in s'.waitq do
@@ -130,7 +145,7 @@ def settle (sim : Sim) : Sim := Id.run do
   -- goroutines that reach the same limiter entry within one quiescence period do so in an order the scheduler picks
   let contended := enq.any (fun w => enq.any (fun w' => w'.1 == w.1 && w'.2 != w.2))
   let rt := allReps.any (fun l => allTogs.any (· != l))
-  return { sim with s := s, everSent := ever, stuck := stuck, racy := racy || contended, rtRace := sim.rtRace || rt }
+  return { sim with s := s, everSent := ever, stuck := stuck, racy := racy || contended, rtRace := sim.rtRace || rt, dual := dual }
 
 /-- earliest deadline of a blocked nested call, if any lies in (now, until] -/
 def nextDeadline (s : State) (until_ : Nat) : Option Nat := Id.run do
@@ -180,6 +195,12 @@ def applyOp (udp : Bool) (limit epLimit : Nat) (sim : Sim) (f : List String) : O
   | ["arrivem", m, prog, _, _] => do
     let m ← m.toNat?
     some ({ sim with s := { s with inbox := s.inbox ++ [⟨m, .req (compileProg udp limit epLimit prog)⟩] } }, [])
+  | ["dup", m] => do
+    -- a retransmission of request m: accepted, taken by a loop, answered from the reply cache (after waiting for the original's
+    -- handler, if that is still running) — the handler does not run again, nothing is logged
+    let m ← m.toNat?
+    if udp then some ({ sim with s := { s with inbox := s.inbox ++ [⟨200000 + m + 1000 * sim.nextId, .req []⟩] }, nextId := sim.nextId + 1 }, [])
+    else some ({ sim with s := { s with inbox := s.inbox ++ [⟨m, .req []⟩] } }, [])
   | ["resp2", k] => do
     -- the response, and behind it a second message under the same token that belongs to nobody: it reaches the handler
     let k ← k.toNat?
@@ -201,6 +222,7 @@ def applyOp (udp : Bool) (limit epLimit : Nat) (sim : Sim) (f : List String) : O
     let prog := if j == 1 then compileProg udp limit epLimit ((sim.watchProg.lookup k).getD "r") else []
     some ({ sim with s := { s with inbox := s.inbox ++ [⟨9000 + 100 * k + j, .req prog⟩] }, notes := k :: sim.notes }, [])
   | ["pad", _] => some (sim, [])
+  | ["yield"] => some (settle sim, [])
   | ["empty", i, kind] => do
     -- an empty message that matches nothing outstanding: an ACK is discarded by the message layer (never queued), a Reset is
     -- accepted and handed to the application's handler like any other message
@@ -234,15 +256,24 @@ def model (line : String) : String :=
     let sim0 : Sim := { s := init (q.toNat?.getD 0) udp [] }
     let (sim, segs, bad) := ops.foldl (fun (acc : Sim × List String × Bool) op =>
       let (sim, segs, bad) := acc
-      let f := op.splitOn ":"
       let n0 := sim.s.log.length
-      -- the harness lets one millisecond of virtual time pass before every arrival / outside call
-      let sim := if ["arrive", "arrivem", "call", "burst", "watch", "note"].contains (f.headD "") || (udp && f.headD "" == "empty") then sleepFor sim 1 else sim
-      match applyOp udp limit epLimit sim f with
+      -- `a&b`: sub-ops applied without running to quiescence in between
+      let r := ((op.splitOn "&").zipIdx).foldl (fun (st : Option (Sim × List String)) (sub, idx) =>
+        match st with
+        | none => none
+        | some (sim, pre) =>
+          let f := sub.splitOn ":"
+          -- the harness lets one millisecond of virtual time pass before every arrival / outside call (first part of a compound op only)
+          let sim := if idx == 0 && (["arrive", "arrivem", "dup", "call", "burst", "watch", "note"].contains (f.headD "") || (udp && f.headD "" == "empty")) then sleepFor sim 1 else sim
+          match applyOp udp limit epLimit sim f with
+          | some (sim1, p) =>
+            (match f with
+             | ["sleep", ms] => some (sleepFor sim1 (ms.toNat?.getD 0), pre ++ p)
+             | _ => some (sim1, pre ++ p))
+          | none => none) (some (sim, []))
+      match r with
       | some (sim1, pre) =>
-        let sim2 := match f with
-          | ["sleep", ms] => sleepFor sim1 (ms.toNat?.getD 0)
-          | _ => settle sim1
+        let sim2 := settle sim1
         let evs := pre ++ (sim2.s.log.drop n0).filterMap fmtLog
         (sim2, segs ++ [if evs.isEmpty then "-" else String.intercalate "," evs], bad)
       | none => (sim, segs, true)) (sim0, [], false)
@@ -254,22 +285,26 @@ def model (line : String) : String :=
 
 def classify (line : String) : String :=
   match words line with
-  | ["disc", _] => "racy|-"
+  | ["disc", _] => "racy|-|two"
   | "scn" :: tr :: q :: lim :: ep :: ops =>
     let udp := tr == "udp"
     let limit := lim.toNat?.getD 0
     let epLimit := ep.toNat?.getD 0
     let sim0 : Sim := { s := init (q.toNat?.getD 0) udp [] }
     let sim := ops.foldl (fun (sim : Sim) op =>
-      let f := op.splitOn ":"
-      let sim := if ["arrive", "arrivem", "call", "burst", "watch", "note"].contains (f.headD "") || (udp && f.headD "" == "empty") then sleepFor sim 1 else sim
-      match applyOp udp limit epLimit sim f with
-      | some (sim1, _) => (match f with
-          | ["sleep", ms] => sleepFor sim1 (ms.toNat?.getD 0)
-          | _ => settle sim1)
-      | none => sim) sim0
+      settle (((op.splitOn "&").zipIdx).foldl (fun (sim : Sim) (sub, idx) =>
+        let f := sub.splitOn ":"
+        let sim := if idx == 0 && (["arrive", "arrivem", "dup", "call", "burst", "watch", "note"].contains (f.headD "") || (udp && f.headD "" == "empty")) then sleepFor sim 1 else sim
+        match applyOp udp limit epLimit sim f with
+        | some (sim1, _) => (match f with
+            | ["sleep", ms] => sleepFor sim1 (ms.toNat?.getD 0)
+            | _ => sim1)
+        | none => sim) sim)) sim0
     -- the order of a TryToReplaceLoop and another loop's flag change only matters when some handler blocks without asking for a replacement
+    -- third field: `one` = at every moment at most one loop can be dispatching (the dispatch-order clause applies); `two` = a loop
+    -- was (possibly) replaced while it was dispatching, or a replaced loop could win a message next to a free current loop
     (if sim.racy || (sim.rtRace && !sim.stuck.isEmpty) then "racy|" else "det|") ++ (if sim.stuck.isEmpty then "-" else String.intercalate "+" (sim.stuck.reverse))
+      ++ (if sim.rtRace || sim.dual then "|two" else "|one")
   | _ => "bad-op"
 
 open CoapVerif.Spec.Dispatch in
@@ -280,35 +315,46 @@ def history (udp : Bool) (ops : List String) (segs : List String) : Option (List
   let mut pending := 0
   let mut watchProg : List (String × String) := []
   let mut notes : List String := []
+  -- exchanges that are one-way confirmable writes (`w<k>`): their answer is the ACK
+  let writes : List String := (ops.flatMap (·.splitOn "&")).flatMap fun sub =>
+    match sub.splitOn ":" with
+    | "arrive" :: _ :: prog :: _ => (prog.splitOn "+").filterMap (fun st => if st.startsWith "w" then some (st.drop 1).toString else none)
+    | "arrivem" :: _ :: prog :: _ => (prog.splitOn "+").filterMap (fun st => if st.startsWith "w" then some (st.drop 1).toString else none)
+    | ["call", prog] => (prog.splitOn "+").filterMap (fun st => if st.startsWith "w" then some (st.drop 1).toString else none)
+    | _ => []
   for op in ops do
-    let f := op.splitOn ":"
     let seg ← segs.head?
     segs := segs.drop 1
     let evs := if seg == "-" then [] else seg.splitOn ","
     let early := evs.any (·.startsWith "early")
-    match f with
-    | ["arrive", m, prog] =>
+    for sub in op.splitOn "&" do
+     let f := sub.splitOn ":"
+     match f with
+     | ["arrive", m, prog] =>
       let m ← m.toNat?
       hist := hist ++ [.arrive m (prog != "r")]
-    | ["arrivem", m, prog, _, _] =>
-      hist := hist ++ [.arrive (← m.toNat?) (prog != "r" && prog != "a")]
-    | ["resp2", k] => if !early then hist := hist ++ [.answered (← k.toNat?), .arrive (7000 + (← k.toNat?)) false]
-    | ["burst", ids] =>
-      for m in (ids.splitOn "-").filterMap (·.toNat?) do
-        hist := hist ++ [.arrive m false]
-    | ["empty", i, kind] => if udp && kind == "rst" then hist := hist ++ [.arrive (8000 + (← i.toNat?)) false]
-    | ["watch", k, prog] => watchProg := (k, prog) :: watchProg
-    | ["note", k] =>
-      let j := (notes.filter (· == k)).length + 1
-      notes := k :: notes
-      hist := hist ++ [.arrive (9000 + 100 * (← k.toNat?) + j) (j == 1 && (watchProg.lookup k).getD "r" != "r")]
-    | ["resp", k] => if !early then hist := hist ++ [.answered (← k.toNat?)]
-    | ["ack", k] => if !early then ackd := k :: ackd
-    -- a separate response before the ACK does not complete the call (it still waits for the ACK): no claim
-    | ["sep", k] => if !early && (!udp || ackd.contains k) then hist := hist ++ [.answered (← k.toNat?)]
-    | ["pong"] => if !early then hist := hist ++ [.answered 0]
-    | ["close"] => hist := hist ++ [.close]
-    | _ => pure ()
+     | ["arrivem", m, prog, _, _] =>
+       hist := hist ++ [.arrive (← m.toNat?) (prog != "r" && prog != "a")]
+     | ["resp2", k] => if !early then hist := hist ++ [.answered (← k.toNat?), .arrive (7000 + (← k.toNat?)) false]
+     | ["burst", ids] =>
+       for m in (ids.splitOn "-").filterMap (·.toNat?) do
+         hist := hist ++ [.arrive m false]
+     | ["empty", i, kind] => if udp && kind == "rst" then hist := hist ++ [.arrive (8000 + (← i.toNat?)) false]
+     | ["watch", k, prog] => watchProg := (k, prog) :: watchProg
+     | ["note", k] =>
+       let j := (notes.filter (· == k)).length + 1
+       notes := k :: notes
+       hist := hist ++ [.arrive (9000 + 100 * (← k.toNat?) + j) (j == 1 && (watchProg.lookup k).getD "r" != "r")]
+     | ["resp", k] => if !early then hist := hist ++ [.answered (← k.toNat?)]
+     | ["ack", k] =>
+       if !early then
+         ackd := k :: ackd
+         if udp && writes.contains k then hist := hist ++ [.answered (← k.toNat?)]
+     -- a separate response before the ACK does not complete the call (it still waits for the ACK): no claim
+     | ["sep", k] => if !early && (!udp || ackd.contains k) then hist := hist ++ [.answered (← k.toNat?)]
+     | ["pong"] => if !early then hist := hist ++ [.answered 0]
+     | ["close"] => hist := hist ++ [.close]
+     | _ => pure ()
     for ev in evs do
       if ev.startsWith "s" then hist := hist ++ [.enter (← (ev.drop 1).toString.toNat?)]
       else if ev.startsWith "early" then pure ()
@@ -343,7 +389,11 @@ def discHistory (obs : String) : Option (List HEv) := do
     else none
   return hist
 
-def judgeLine (line : String) : String :=
+def judgeLine (line0 : String) : String :=
+  -- `<history> | <observed line>` or `<history> | <observed line> | two` (two loops may dispatch side by side: no dispatch-order claim)
+  let parts := line0.splitOn " | "
+  let one := parts.length != 3
+  let line := String.intercalate " | " (parts.take 2)
   match line.splitOn " | " with
   | [inp, obs] =>
     let obs := obs.trimAscii.toString
@@ -359,7 +409,7 @@ def judgeLine (line : String) : String :=
     match words inp with
     | "scn" :: tr :: _ :: _ :: _ :: ops =>
       match history (tr == "udp") ops (obs.splitOn ";") with
-      | some (h, pending) => match Spec.Dispatch.judge h pending with
+      | some (h, pending) => match Spec.Dispatch.judge h pending one with
         | none => "ok"
         | some c => s!"violates {c}"
       | none => "violates unparsable-observation"
